@@ -239,6 +239,7 @@ def generate():
                     if "function" in fitem["inner"] and not extra:
                         fns.append(fn_row(name, fitem, im, trait=tname))
     # IntoIterator for &Type is an impl "for &Type": search all impls
+    key_trait_impls = []
     for k, v in idx.items():
         if "impl" in v["inner"]:
             im = v["inner"]["impl"]
@@ -247,6 +248,10 @@ def generate():
                 continue
             tname = tr["path"].split("::")[-1]
             forty = im["for"]
+            # an impl of the crate whose trait is parametrised by the key: AsMut<ThreadKey>, Borrow<ThreadKey>, From<..> -> ..
+            if v.get("crate_id") == 0 and mentions(tr.get("args"), "ThreadKey"):
+                head = forty.get("resolved_path", {}).get("path", "?").split("::")[-1] if isinstance(forty, dict) else "?"
+                key_trait_impls.append((head, tname))
             if tname == "Keyable":
                 if "borrowed_ref" in forty:
                     keyable_impls.append(("&mut " if forty["borrowed_ref"]["is_mutable"] else "&") +
@@ -314,7 +319,7 @@ def generate():
                     if sup is not None and sup.get("name") == "Sealed":
                         sealed = not all_public(idx, j, sid)
     return render(rules, timpls, fns, key_public_field, nonkey_public_fields, sorted(set(keyable_impls)), sealed,
-                  ownedlockable_ref, sorted(set(ol_impls)), sorted(key_holders), holder_rules), log
+                  ownedlockable_ref, sorted(set(ol_impls)), sorted(key_holders), holder_rules, sorted(set(key_trait_impls))), log
 
 
 def all_public(idx, j, sid):
@@ -405,7 +410,7 @@ def cb(b):
 
 
 def render(rules, timpls, fns, key_public_field, nonkey_public_fields, keyable_impls, sealed, ownedlockable_ref, ol_impls,
-           key_holders, holder_rules):
+           key_holders, holder_rules, key_trait_impls):
     o = ["(* GENERATED by tools/apitable.py from the rustdoc JSON of /repo's working tree — do not edit. *)",
          "From Coq Require Import List String Bool.", "Import ListNotations.", "Open Scope string_scope.", "",
          "Inductive marker := MSend | MSync.",
@@ -429,6 +434,8 @@ def render(rules, timpls, fns, key_public_field, nonkey_public_fields, keyable_i
     o.append(";\n".join(f'  mkrule "{name}" M{tr} {cb(neg)} {cb(syn)} [{"; ".join(f"{k} M{b}" for k, b in bs)}]'
                          for name, tr, neg, syn, bs in sorted(holder_rules)))
     o.append("].\n")
+    o.append("(* impls of the crate whose trait is parametrised by ThreadKey (AsMut<ThreadKey>, Borrow<ThreadKey>, ..): (type, trait) *)")
+    o.append("Definition key_trait_impls : list (string * string) := [" + "; ".join(f'("{a}", "{b}")' for a, b in key_trait_impls) + "].")
     o.append("Definition trait_impls : list (string * string) := [")
     o.append(";\n".join(f'  ("{a}", "{b}")' for a, b in sorted(set(timpls))))
     o.append("].\n")
